@@ -1,5 +1,6 @@
 """C16 -- qtools multiplier output types represent every product of their operand types."""
 import os
+import re
 import sys
 
 sys.path.insert(0, os.path.dirname(os.path.dirname(os.path.abspath(__file__))))
@@ -16,6 +17,11 @@ def classify_bad(wd, xd):
   po2w, po2x = "po2" in wd, "po2" in xd
   if po2w and po2x and (("relu_po2" in wd) != ("relu_po2" in xd)):
     return "C16-adder-signed-times-unsigned-po2"
+  def small_cap(d):
+    m = re.search(r"max_value=([0-9.]+)", d)
+    return bool(m) and 0.0 < float(m.group(1)) <= 1.0
+  if po2w and po2x and (small_cap(wd) != small_cap(xd)):
+    return "C16-adder-one-operand-without-exponent-sign-bit"
   if ("bernoulli" in wd) or (wd.startswith("quantized_relu(1,1")):
     return "C16-andgate-01-weight-int-bits"
   return None
